@@ -12,7 +12,10 @@ for _k, _tiers in (('S4', ("quick", "thorough")), ('S3', ("thorough",)), ('S1', 
         if _k == 'S4' and _op == 'add_network_service':
             add("c09/S4/add_network_service_two_interfaces", mk('C09', _k, _op), timeout=1500, tiers=("thorough",), encodes=ENC,
                 bounds="skeleton S4, new service with 0..2 interfaces from 5 representative ones at symbolic positions")
-        add("c09/%s/%s" % (_k, _op), mk('C09', _k, _op, small=(_k == 'S4')), timeout=900, tiers=_tiers, encodes=ENC,
+        if _op == 'prune' and _k in ('S3', 'S4'):
+            add("c09/%s/prune_all_subsets" % _k, mk('C09', _k, _op), timeout=2400, tiers=("thorough",), encodes=ENC,
+                bounds="skeleton %s, prune() after marking every one of the 1024 subsets of ten elements (nodes, components, services, interfaces)" % _k)
+        add("c09/%s/%s" % (_k, _op), mk('C09', _k, _op, small=(_k == 'S4' or _op == 'prune')), timeout=900, tiers=_tiers, encodes=ENC,
             bounds="skeleton %s, one %s with symbolic arguments (names/sites/types/interfaces by symbolic index incl. unused and duplicate ones, "
                    "unbounded int capacities, unbounded symbolic model string); if the call raises the canonical snapshot equals the pre-snapshot" % (_k, _op))
 
